@@ -128,7 +128,11 @@ func genMACCommand(r *core.RNG, uplink bool, maxLen int) (*lorawan.MACCommand, [
 		}
 		return &lorawan.MACCommand{CID: lorawan.CID(cid)}, []byte{cid}
 	}
-	l := cands[pick]
+	return genMACCommandOf(r, uplink, cands[pick])
+}
+
+// genMACCommandOf generates one command of the given layout with in-range, wire-exact values.
+func genMACCommandOf(r *core.RNG, uplink bool, l *spec.Layout) (*lorawan.MACCommand, []byte) {
 	vals := make([]int64, len(l.Fields))
 	for i, f := range l.Fields {
 		vals[i] = f.WireResolution(sureValue(r, f)) // frames carry wire-exact values
@@ -159,6 +163,14 @@ func genMACStream(r *core.RNG, uplink bool, n int, exact bool) ([]lorawan.Payloa
 		}
 		cmds = append(cmds, c)
 		bytes = append(bytes, b...)
+		// blocks of the same command with different values (several LinkADRReq in a row, two NewChannelReq, ...)
+		if l := spec.MACLayout(uplink, b[0]); l != nil && len(b) > 1 && r.Chance(1, 4) {
+			for k := 1 + r.Intn(3); k > 0 && len(bytes)+len(b) <= n; k-- {
+				c2, b2 := genMACCommandOf(r, uplink, l)
+				cmds = append(cmds, c2)
+				bytes = append(bytes, b2...)
+			}
+		}
 	}
 	return cmds, bytes
 }
